@@ -29,6 +29,11 @@ var targetFile = map[string]string{
 	"mexCheckFrame":           "GenMex",
 	"hcEnabled":               "GenHealthIdle",
 	"idleCheckOk":             "GenHealthIdle",
+	"hasPendingCalls":         "GenHealthIdle",
+	"relayCanClose":           "GenHealthIdle",
+	"connIsActive":            "GenHealthIdle",
+	"lastActivityTime":        "GenHealthIdle",
+	"sweepIsIdle":             "GenHealthIdle",
 	"validateRelayMaxTimeout": "GenTTL",
 	"lazyCallReqTTL":          "GenTTL",
 	// C08
@@ -149,6 +154,19 @@ var targets = []Target{
 	{Func: "ChannelOptions.validateIdleCheck", Out: "idleCheckOk", Params: "(interval : Z) (maxIdle : Z)", Ret: "bool",
 		Hints: map[string]string{"o.IdleCheckInterval": "interval", "o.MaxIdleTime": "maxIdle",
 			"errMaxIdleTimeNotSet": "false", "nil": "true"}},
+	// connection.go / relay.go / idle_sweep.go (C19): the decisions of the idle sweep on one connection.
+	// The counters, the state and the two activity stamps are parameters (each is one atomic read in the code).
+	{Func: "Relayer.canClose", Out: "relayCanClose", Params: "(isNil : bool) (pending : Z)", Ret: "bool",
+		Hints: map[string]string{"r == nil": "isNil", "r.countPending()": "pending"}},
+	{Func: "Connection.hasPendingCalls", Out: "hasPendingCalls", Params: "(inb : Z) (outb : Z) (canClose : bool)", Ret: "bool",
+		Hints: map[string]string{"c.inbound.countCalls()": "inb", "c.outbound.countCalls()": "outb", "c.relay.canClose()": "canClose"}},
+	{Func: "Connection.IsActive", Out: "connIsActive", Params: "(state : Z)", Ret: "bool",
+		Hints: map[string]string{"c.readState()": "state"}},
+	{Func: "lastActivityTime", Out: "lastActivityTime", Params: "(lr : Z) (lw : Z)", Ret: "Z",
+		Hints: map[string]string{"conn.getLastActivityReadTime()": "lr", "conn.getLastActivityWriteTime()": "lw",
+			"lastActivity.Before(sendActivity)": "(lastActivity <? sendActivity)"}},
+	{Func: "idleSweep.isIdle", Out: "sweepIsIdle", Params: "(idleFor : Z) (maxIdle : Z)", Ret: "bool",
+		Hints: map[string]string{"now.Sub(lastActivityTime(conn))": "idleFor", "is.maxIdleTime": "maxIdle"}},
 	// fragmenting_writer.go / fragmenting_reader.go: state predicates used by every operation
 	{Func: "fragmentingWriterState.isWritingArgument", Out: "isWritingArgument", Params: "(s : Z)", Ret: "bool"},
 	{Func: "fragmentingReadState.isReadingArgument", Out: "isReadingArgument", Params: "(s : Z)", Ret: "bool"},
